@@ -426,6 +426,12 @@ class Engine(
                     new_lhs, new_lhs_needs_projection = lhs, False
                 if new_rhs_needs_projection and not (new_rhs.columns - rhs.columns).isdisjoint(lhs.columns):
                     new_rhs, new_rhs_needs_projection = rhs, False
+                # The same table (or other FROM clause object) cannot appear
+                # twice in a single FROM clause without aliases, so when both
+                # operands would contribute it directly (e.g. a self-join),
+                # keep one of them as a subquery.
+                if not self._direct_from_clauses(new_lhs).isdisjoint(self._direct_from_clauses(new_rhs)):
+                    new_rhs, new_rhs_needs_projection = rhs, False
                 if new_lhs_needs_projection or new_rhs_needs_projection:
                     projection = Projection(frozenset(lhs.columns | rhs.columns))
                 else:
@@ -437,6 +443,25 @@ class Engine(
                 else:
                     return lhs
         raise AssertionError(f"Match on {operation} should be exhaustive and all branches return..")
+
+    def _direct_from_clauses(self, relation: Relation) -> set[int]:
+        """Return the identities of the FROM clause objects that `to_payload`
+        would include directly (i.e. not via a subquery) for a relation.
+        """
+        if relation.payload is not None:
+            return {id(cast(Payload, relation.payload).from_clause)}
+        match relation:
+            case Select():
+                return set()
+            case MarkerRelation():
+                # A Materialization or Transfer that has not been processed
+                # yet; its one future payload is identified by the relation.
+                return {id(relation)}
+            case UnaryOperationRelation(target=target):
+                return self._direct_from_clauses(target)
+            case BinaryOperationRelation(lhs=lhs, rhs=rhs):
+                return self._direct_from_clauses(lhs) | self._direct_from_clauses(rhs)
+        return set()
 
     def get_identifier(self, tag: ColumnTag) -> str:
         """Return the SQL identifier that should be used to represent the given
